@@ -56,7 +56,16 @@ def legal_history(n, max_ingest, ops):
         if op[0] == 'release' and op[1] not in m.tr.res_live and m.tr.res_live and i % 3:
             live = sorted(m.tr.res_live)
             op = ['release', live[i % len(live)]]      # steer most releases to live reservations
+        if op[0] == 'allocate' and i % 2:
+            res = m.tr.m[f"m{op[2]}"]['res']
+            if res is not None and op[3] != res:
+                op = ['allocate', op[1], op[2], res]   # steer half of the allocations on reserved machines to their owner
         out += m.apply(op)
+    # drain: let every allocation in flight complete so that completions after the last operation are judged too
+    guard = 0
+    while not m.dead and not out and any(s_['alloc'] is not None or s_['promised'] is not None for s_ in m.tr.m.values()) and guard < 12:
+        out += m.apply(['advance', 1])
+        guard += 1
     return m, out
 
 
